@@ -142,6 +142,8 @@ class _Rewrite(ast.NodeTransformer):
     def visit_Call(self, node):
         self.generic_visit(node)
         f = node.func.id if isinstance(node.func, ast.Name) else None
+        if f == "forall" and node.keywords:
+            node.keywords = [k for k in node.keywords if k.arg != "trig"]
         if f == "implies":
             return ast.BoolOp(ast.Or(), [ast.UnaryOp(ast.Not(), node.args[0]), node.args[1]])
         if f == "ite":
@@ -173,7 +175,7 @@ def _ranges(args):
     return rs, f
 
 
-def _forall(*args):
+def _forall(*args, trig=None):
     rs, f = _ranges(args)
     if len(rs) == 1:
         return all(f(i) for i in rs[0])
@@ -242,6 +244,7 @@ def base_env(repo):
         "isnan_": lambda x: isinstance(x, float) and math.isnan(x), "optval": lambda x: x, "isint_": lambda x: float(x).is_integer(), "to_int": lambda x: int(x),
         "kindis": lambda a, k: (a.dtype.kind == {"real": "f", "int": "i", "bool": "b"}[k]), "typeis": lambda f, name: getattr(f, "__name__", None) == name,
         "vsum": lambda a: R(float(np.sum(a.a))), "rowsum": lambda a, i: R(float(np.sum(a.a[int(i)]))), "is_none": lambda v: v is None,
+        "LSUM": lambda name, lst, k, g: R(sum(float(g(lst[q])) for q in range(int(k)))),
         "ICUM": icum, "True": True, "False": False, "int": int, "float": float, "all": all, "any": any, "sum": sum,
     }
     return env
@@ -409,6 +412,18 @@ def smart(c, vals, dims, rng, ghosts=None):
                 a[u] = float(u)
             else:
                 a[u] = float(rng.randint(max(lo, 0), hi))
+        # value-carrying ghosts: random gains, V by the recurrence the back-pointers describe
+        PP = np.array([rng.randint(-4, 8) / 2.0 for _ in range(n)], dtype=float)
+        GC = np.array([[rng.randint(-4, 8) / 2.0 for _ in range(n + 1)] for _ in range(n + 1)], dtype=float).reshape(n + 1, n + 1)
+        V = np.zeros(n + 1)
+        for u in range(n):
+            if np.isnan(a[u]):
+                V[u + 1] = V[u]
+            elif int(a[u]) == u:
+                V[u + 1] = V[u] + PP[u]
+            else:
+                V[u + 1] = V[int(a[u])] + GC[int(a[u]), u + 1]
+        ghosts["V"], ghosts["PP"], ghosts["GC"] = V, PP, GC
     if c.ident.startswith(("greedy_changepoint_selection", "greedy_anomaly_selection")) and ghosts is not None:
         K = len(vals["starts"])
         ghosts["m"] = rng.choice([1, 1, 2])
